@@ -296,8 +296,10 @@ func runProperty(repo, specs, prop, tier, out string) int {
 	violations := 0
 	var knownSeen []string
 	replayBudget := 4 // failed obligations for which a failing input is searched (model, unrolled search, go test)
+	replayDeadline = time.Now().Add(100 * time.Second) // the search must not turn a quick check into a slow one
 	if tier == "thorough" {
 		replayBudget = 12
+		replayDeadline = time.Now().Add(12 * time.Minute)
 	}
 	if os.Getenv("VERIF_NO_REPLAY") != "" {
 		replayBudget = 0 // must-fail corpus runs only need the verdict
@@ -325,7 +327,7 @@ func runProperty(repo, specs, prop, tier, out string) int {
 			qf := strings.TrimSuffix(rf, ".json") + ".smt2"
 			os.WriteFile(qf, []byte(f.bad.Query(true)), 0o644)
 			rep["query"] = qf
-			if replayBudget > 0 && !f.smoke && f.bad.X != nil {
+			if replayBudget > 0 && !f.smoke && f.bad.X != nil && time.Now().Before(replayDeadline) {
 				// try to obtain a model and replay it on the real code (a bounded number per run)
 				replayBudget--
 				if ok, info := tryReplay(p, f.bad, rf, repo); ok {
